@@ -342,3 +342,63 @@ def has_bad_keys(v):
         cs = [val_canon(a) for a, _ in v[1]]
         return len(set(cs)) != len(cs) or any(has_bad_keys(a) or has_bad_keys(b) for a, b in v[1])
     return False
+
+
+# ---------------------------------------------------------------- forced shapes
+def forced_cases(seed, n):
+    """Structural templates that the purely random generator reaches rarely; leaves are random."""
+    g = Gen(seed)
+    r = g.r
+    out = []
+
+    def obj(keys, depth=1):
+        return ("Object", [(k, g.rt(depth, [])) for k in keys], [])
+
+    for i in range(n):
+        kind = i % 8
+        env = []
+        if kind == 0:
+            # a declared property whose value also matches an index signature with a *narrower* value type
+            full = ["p", "q", "s"][: r.randrange(2, 4)]
+            inner_props = [(k, r.choice([("Typeof", "string"), ("Typeof", "number"), ("Optional", ("Typeof", "boolean"))])) for k in full]
+            narrow = inner_props[: r.randrange(1, len(inner_props))]
+            rt = ("Object", [(r.choice(["a", "b", "kind"]), ("Object", inner_props, []))],
+                  [(r.choice([("Typeof", "string"), ("StringFmt", ["short"])]), ("Object", narrow, []))])
+        elif kind == 1:
+            # union of objects with overlapping key sets (several branches match, deepmerge of projections)
+            ks = ["a", "b", "c", "d"]
+            rt = ("AnyOf", [("Object", [(k, r.choice([("Typeof", "string"), ("Typeof", "number"), ("Array", ("Typeof", "number")), ("Optional", ("Typeof", "string"))]))
+                                          for k in r.sample(ks, r.randrange(1, 4))], []) for _ in range(r.randrange(2, 4))])
+        elif kind == 2:
+            # a union nested below a property/array inside another union (error paths of nested union errors)
+            inner = ("AnyOf", [("Typeof", "number"), ("Typeof", "boolean"), ("Const", "x")][: r.randrange(2, 4)])
+            mid = r.choice([("Array", ("Object", [("x", inner)], [])), ("Object", [("y", ("Array", inner))], []),
+                            ("Tuple", [("Typeof", "string")], inner)])
+            rt = ("Object", [(r.choice(["a", "b"]), ("AnyOf", [("Typeof", "string"), mid]))], [])
+        elif kind == 3:
+            # intersections of named objects / of literal objects
+            env = [("A", obj(r.sample(["a", "b", "c"], 2))), ("B", obj(r.sample(["c", "d", "kind"], 2)))]
+            rt = r.choice([("AllOf", [("Ref", "A"), ("Ref", "B")]), ("AllOf", [("Ref", "A")]),
+                           ("Object", [("w", ("AllOf", [("Ref", "A"), obj(["zz"])]))], [])])
+        elif kind == 4:
+            # tuples: fixed, with rest, with optional-like trailing elements
+            pre = [g.leaf() for _ in range(r.randrange(1, 4))]
+            if r.random() < 0.5:
+                pre.append(("AnyOf", [g.leaf(), ("Nullish", "undefined")]))
+            rt = ("Tuple", pre, g.leaf() if r.random() < 0.5 else None)
+        elif kind == 5:
+            rt = g.disc_rt(2, [])
+            if r.random() < 0.5:
+                rt = ("Object", [("u", rt)], [])
+        elif kind == 6:
+            # recursive named types
+            env = [("L", ("Object", [("v", g.leaf()), ("next", ("AnyOf", [("Ref", "L"), ("Nullish", "null")]))], [])),
+                   ("T", ("Object", [("kids", ("Array", ("Ref", "T"))), ("tag", ("Optional", g.leaf()))], []))]
+            rt = r.choice([("Ref", "L"), ("Ref", "T"), ("Object", [("l", ("Ref", "L")), ("t", ("Ref", "T"))], [])])
+        else:
+            # Map / Set / records of unions
+            rt = r.choice([("Map", ("Typeof", "string"), ("AnyOf", [g.leaf(), g.leaf()])), ("Set", ("AnyOf", [g.leaf(), g.leaf()])),
+                           ("Object", [], [(("Typeof", "string"), ("AnyOf", [g.leaf(), ("Object", [("a", g.leaf())], [])]))]),
+                           ("AnyOf", [("Map", ("Typeof", "string"), g.leaf()), ("Nullish", "null")])])
+        out.append((env, rt))
+    return out
